@@ -14,7 +14,7 @@ from xdsl.dialects import test
 from xdsl.dialects.builtin import i32, i64
 from xdsl.ir import Block, BlockArgument, Operation, OpResult, Region, SSAValue, Use
 from xdsl.ir.core import SSAValues
-from xdsl.rewriter import InsertPoint, Rewriter
+from xdsl.rewriter import BlockInsertPoint, InsertPoint, Rewriter
 
 symheap.REF_CLASSES[:] = [Operation, Block, Region, SSAValue, Use]
 LEVEL = "other"
@@ -135,11 +135,11 @@ class Inv:
     def F(objs, name):
         return symheap.field_fn(objs, name)
 
-    def invariant(self, skip_ops=(), extra_blocks=(), extra_values=(), skip_blocks=()):
+    def invariant(self, skip_ops=(), extra_blocks=(), extra_values=(), skip_blocks=(), extra_regions=()):
         I = as_id
         ops = [o for o in self.ops if not any(o is s for s in skip_ops)]
         blocks = [b for b in self.blocks if not any(b is s for s in skip_blocks)] + list(extra_blocks)
-        regions = self.regions
+        regions = list(self.regions) + list(extra_regions)
         cs = []
         n = len(self.ops) + 1
         nxt, prv, par = self.F(ops, "_next_op"), self.F(ops, "_prev_op"), self.F(ops, "parent")
@@ -524,6 +524,45 @@ def _(inv):
     inv.erased_values = True
 
 
+@call("Rewriter.replace_value_with_new_type", 3)
+def _(inv):
+    val = conc(R("val", inv.values))
+    nv = Rewriter.replace_value_with_new_type(val, i32)
+    inv.new_values = [nv]
+    inv.erased_values = True
+
+
+@call("Rewriter.insert_block", 3)
+def _(inv):
+    kind = mchoose(4, "bip")
+    tgt = R("target", inv.blocks)
+    reg = R("tregion", inv.regions)
+    bip = [BlockInsertPoint.before, BlockInsertPoint.after][kind](tgt) if kind < 2 else [BlockInsertPoint.at_start, BlockInsertPoint.at_end][kind - 2](reg)
+    Rewriter.insert_block(R("block", inv.blocks), bip)
+
+
+@call("Rewriter.insert_block[2]", 3)
+def _(inv):
+    kind = mchoose(2, "bip")
+    bip = BlockInsertPoint.before(R("target", inv.blocks)) if kind == 0 else BlockInsertPoint.at_end(R("tregion", inv.regions))
+    Rewriter.insert_block([R("block_a", inv.blocks), R("block_b", inv.blocks)], bip)
+
+
+@call("Rewriter.inline_region", 3)
+def _(inv):
+    kind = mchoose(4, "bip")
+    tgt = R("target", inv.blocks)
+    reg = R("tregion", inv.regions)
+    bip = [BlockInsertPoint.before, BlockInsertPoint.after][kind](tgt) if kind < 2 else [BlockInsertPoint.at_start, BlockInsertPoint.at_end][kind - 2](reg)
+    Rewriter.inline_region(R("region", inv.regions), bip)
+
+
+@call("Rewriter.move_region_contents_to_new_regions", 2)
+def _(inv):
+    nr = Rewriter.move_region_contents_to_new_regions(R("region", inv.regions))
+    inv.new_regions = [nr]
+
+
 def cur_ex():
     from vx.symx import Explorer
 
@@ -575,7 +614,7 @@ def obligations(tier):
 
 ERASING = {"Block.erase_op", "Operation.drop_all_references", "Operation.erase", "Rewriter.erase_op", "Rewriter.replace_op", "Rewriter.inline_block"}
 USES_CALLS = {"OpOperands.__setitem__", "Operation.operands=", "Operation.successors=", "OpSuccessors.__setitem__", "SSAValue.replace_all_uses_with",
-              "Operation.drop_all_references", "Operation.erase", "Rewriter.erase_op", "Rewriter.replace_op", "Rewriter.inline_block", "Block.erase_op", "Block.erase_arg"}
+              "Operation.drop_all_references", "Operation.erase", "Rewriter.erase_op", "Rewriter.replace_op", "Rewriter.inline_block", "Block.erase_op", "Block.erase_arg", "Rewriter.replace_value_with_new_type"}
 
 
 def post_invariant(inv, raised):
@@ -603,7 +642,10 @@ def post_invariant(inv, raised):
         live = {id(a) for b in inv.blocks for a in b._args} | {id(r) for o in inv.ops for r in o.results} | {id(inv.values[-1])}
         inv.values = [v for v in inv.values if id(v) in live]
     skip_blocks = [conc(b) for b in getattr(inv, "erased_blocks", [])]
-    return inv.invariant(skip_ops=skip, extra_blocks=inv.new_blocks, extra_values=extra_values, skip_blocks=skip_blocks)
+    new_regions = getattr(inv, "new_regions", [])
+    for nr in new_regions:
+        U.add(nr)
+    return inv.invariant(skip_ops=skip, extra_blocks=inv.new_blocks, extra_values=extra_values, skip_blocks=skip_blocks, extra_regions=new_regions)
 
 
 ALLOWED = (ValueError, IndexError, AssertionError, StopIteration, KeyError, AttributeError, TypeError, Exception)
@@ -625,7 +667,7 @@ def run(ob, tier, stats, exclude):
         inv = Inv(ex, n_, nblocks, 2, with_uses=with_uses, with_succ=with_uses, nesting=name not in ERASING, nargs=3 if name in ("Block.erase_arg", "Block.insert_arg") else 1)
         ex.note("nops", n_)
         ex.note("nblocks", nblocks)
-        inv.new_blocks, inv.new_values, inv.erased_ref, inv.erased_values, inv.erased_blocks = [], [], None, False, []
+        inv.new_blocks, inv.new_values, inv.erased_ref, inv.erased_values, inv.erased_blocks, inv.new_regions = [], [], None, False, [], []
         ex.assume(inv.invariant())
         raised = None
         try:
@@ -672,7 +714,7 @@ def replay(ob, inputs):
         pre = z3.simplify(inv.invariant())
         if not z3.is_true(pre):
             return {"violates": False, "why": f"model does not satisfy the pre-state invariant concretely: {pre}"}
-        inv.new_blocks, inv.new_values, inv.erased_ref, inv.erased_values, inv.erased_blocks = [], [], None, False, []
+        inv.new_blocks, inv.new_values, inv.erased_ref, inv.erased_values, inv.erased_blocks, inv.new_regions = [], [], None, False, [], []
         raised = None
         try:
             f(inv)
